@@ -321,7 +321,14 @@ Discards ==
    Iter("map_values", ObjN(<<"p">>, <<Lit(IntV(1))>>), <<"v">>, <<Asg(TExt(pc), Var("v"))>>),
    Iter("map_values", ObjN(<<"p">>, <<Lit(IntV(1))>>), <<"v">>, <<Lit(IntV(0))>>),
    Iter("filter", ArrN(<<Lit(IntV(1))>>), <<"k", "v">>, <<Asg(TExt(pc), Var("v")), Lit(Bool(TRUE))>>)}
-Progs_C34 == {Prelude \o <<d>> \o Observe : d \in Discards}
+\* if / else whose VALUE is used: the last expression of each branch is the value, whatever the
+\* other branch ends with (a closure-taking call, a block, a literal)
+Tails34 == {<<Lit(Str("none"))>>, <<Asg(TExt(pz), Lit(Bool(TRUE))), Lit(Str("none"))>>, <<ObjN(<<"k">>, <<Lit(IntV(1))>>)>>,
+            <<Asg(TExt(pz), Lit(Bool(TRUE))), Call("to_string", <<Lit(IntV(1))>>)>>,
+            <<Iter("map_values", ObjN(<<"p">>, <<Lit(IntV(1))>>), <<"v">>, <<Call("to_string", <<Var("v")>>)>>)>>,
+            <<Asg(TExt(pz), Lit(IntV(1))), Block(<<Lit(IntV(3))>>)>>}
+UsedIfs == {Asg(TExt(pc), IfElse(<<Exists(TExt(pa))>>, t, e)) : t \in Tails34, e \in Tails34}
+Progs_C34 == {Prelude \o <<d>> \o Observe : d \in Discards \cup UsedIfs}
              \cup {Prelude \o <<Block(<<d, Lit(IntV(0))>>)>> \o Observe : d \in Discards}
              \cup (IF Thorough THEN {Prelude \o <<d1, d2>> \o Observe : d1 \in Discards, d2 \in Discards} ELSE {})
 
